@@ -412,6 +412,18 @@ def run_floorset(c):
         names = [m.name for m in nl.modules]
         if names != list(fp.modules):
             raise Violation("%s: modules read %s, instance has %s" % (what, names, list(fp.modules)), "content-differs")
+        raw_names = ["M%d" % i for i in range(len(c["blocks"]))] + ["T%d" % k for k in range(len(c["pins"]))]
+        if names != raw_names:
+            raise Violation("%s: the document has modules %s, the FloorSet data define %s (other instances were converted "
+                            "before in this process)" % (what, names, raw_names), "content-differs-from-data")
+        raw_nets = [["M%d" % int(e[0]), "M%d" % int(e[1])] for e in c["b2b"]] + [["T%d" % int(e[0]), "M%d" % int(e[1])] for e in c["p2b"]]
+        doc_nets = [[b.name for b in e.modules] for e in nl.edges]
+        if doc_nets != raw_nets:
+            raise Violation("%s: the document has nets %s, the FloorSet data define %s" % (what, doc_nets[:8], raw_nets[:8]), "content-differs-from-data")
+        if not c["density"]:
+            raw_w = [float(e[2]) if e[2] > 0 else 1.0 for e in c["b2b"] + c["p2b"]]
+            if [e.weight for e in nl.edges] != raw_w:
+                raise Violation("%s: net weights %s, the FloorSet data define %s" % (what, [e.weight for e in nl.edges], raw_w), "content-differs-from-data")
         for i, b in enumerate(c["blocks"]):
             m = nl.get_module("M%d" % i)
             kind = ("fixed" if m.is_fixed else "hard" if m.is_hard else "soft")
